@@ -226,6 +226,15 @@
                                    (= (select (select (Mem h) (select (Larr h0) r)) j) (select (select (Mem h0) (select (Larr h0) r)) j)))
                                :pattern ((select (select (Mem h) (select (Larr h0) r)) j))))))
      :pattern ((select (Kind h0) r)))))
+; every object of h0 is still an object of h with the same map, the same key set and the same values
+(define-fun objsUnchanged ((h Heap) (h0 Heap)) Bool
+  (forall ((r Int)) (! (=> (= (select (Kind h0) r) KOBJ)
+     (and (= (select (Kind h) r) KOBJ)
+          (= (select (Omap h) r) (select (Omap h0) r)) (= (select (Optr h) r) (select (Optr h0) r))
+          (= (select (MDom h) (select (Omap h0) r)) (select (MDom h0) (select (Omap h0) r)))
+          (= (select (MVal h) (select (Omap h0) r)) (select (MVal h0) (select (Omap h0) r)))
+          (= (select (MCard h) (select (Omap h0) r)) (select (MCard h0) (select (Omap h0) r)))))
+     :pattern ((select (Kind h0) r)))))
 (define-fun even ((x Int)) Bool (= (mod x 2) 0))
 ; substrings
 (assert (forall ((s Str) (a Int) (b Int)) (! (=> (and (<= 0 a) (<= a b) (<= b (slen s))) (= (slen (sub s a b)) (- b a))) :pattern ((sub s a b)))))
